@@ -21,8 +21,8 @@ from . import common as C
 
 PID = 'C17'
 IMPORTS = ['C17.Model', 'C17.Spec']
-CASE_TYPE = 'case'
-CHECK = 'check_case'
+CASE_TYPE = '(list case)'
+CHECK = 'check_cases'
 SHARD = 30
 RULE = ('synthetic genomes of 1-4 chromosomes made of blocks with graded G+C level (0-100%, incl. pure '
         'G/C and pure A/T), N stretches and sprinkled N, some lower case; 5-200 input loci concentrated on '
@@ -30,8 +30,13 @@ RULE = ('synthetic genomes of 1-4 chromosomes made of blocks with graded G+C lev
         'in_window 50-500, out_window <=/>= in_window, gc_bin_width in {0.01..0.1 incl. 0.06, 0.08}, '
         'max_n_perc in {0..0.5 incl. values hit exactly by k/width}, with/without bigwig (integer signal, '
         'uncovered stretches, signal_beta 1/4..2), chroms None/explicit, n_jobs 1-4, integer seeds; '
-        'non-trivial = accepted call in which some GC bin has more usable input loci than eligible '
-        'background tiles (the spill loops run)')
+        'loci as DataFrame / DataFrame with extra columns, permuted columns, non-default index and int32 / BED '
+        'file path; chroms as list / tuple / ndarray; seed as int / numpy.int64 / RandomState; numpy scalar '
+        'parameter types; verbose on/off; n_jobs -1; boundary stream (exact half-bin GC counts, signal equal to '
+        'the threshold, 0/1/200 loci, zero-width loci, chromosome shorter than the window, out_window 1, bigwig '
+        'lacking a chromosome); multi-call sequences in one process on the same file paths with one thing '
+        'changed per step; non-trivial = accepted call in which some GC bin has more usable input loci than '
+        'eligible background tiles (the spill loops run)')
 TRUSTED = ['the harness measures G+C / N counts and signal sums on the strings it generated and computes the '
            'GC bin of a count with the same float64 expression as the code; Coq checks each bin against exact '
            'rational binning up to 1e-9 and recomputes validity, regions, thresholds and filters exactly',
@@ -51,17 +56,31 @@ TMP = '/tmp/c17_run_%d' % os.getpid()
 # genome / signal expansion (deterministic in the input)
 
 def expand_seq(blocks, seed):
+    """block = [length, gc%, n%, lower] (random composition) or [length, gc%, n%, lower, unit]
+    (unit > 0: every chunk of `unit` bases holds exactly `gc` G/C letters, no N)"""
     out = []
-    for bi, (length, gc, nperc, lower) in enumerate(blocks):
+    for bi, blk in enumerate(blocks):
+        length, gc, nperc, lower = blk[:4]
+        unit = blk[4] if len(blk) > 4 else 0
         rnd = random.Random(seed * 7919 + bi)
         s = []
-        for _ in range(length):
-            if nperc and rnd.randrange(100) < nperc:
-                s.append('N')
-            elif rnd.randrange(100) < gc:
-                s.append(rnd.choice('GC'))
-            else:
-                s.append(rnd.choice('AT'))
+        if unit:
+            pos = 0
+            while pos < length:
+                u = min(unit, length - pos)
+                g = min(u, gc)                    # exact blocks: gc is the G+C count per unit
+                chunk = [rnd.choice('GC') for _ in range(g)] + [rnd.choice('AT') for _ in range(u - g)]
+                rnd.shuffle(chunk)
+                s.extend(chunk)
+                pos += u
+        else:
+            for _ in range(length):
+                if nperc and rnd.randrange(100) < nperc:
+                    s.append('N')
+                elif rnd.randrange(100) < gc:
+                    s.append(rnd.choice('GC'))
+                else:
+                    s.append(rnd.choice('AT'))
         s = ''.join(s)
         out.append(s.lower() if lower else s)
     return ''.join(out)
@@ -85,26 +104,36 @@ def materialise(inp):
     seqs = [expand_seq(c['blocks'], c['seed']) for c in inp['genome']]
     sigs = None
     if inp['bigwig']:
-        sigs = [expand_signal(c['signal'], len(s)) for c, s in zip(inp['genome'], seqs)]
+        sigs = [expand_signal(c['signal'] if in_bw(c) else [], len(s)) for c, s in zip(inp['genome'], seqs)]
     return seqs, sigs
 
 
-def write_files(inp, seqs, sigs, d):
+def in_bw(c):
+    return c.get('in_bw', True)
+
+
+def write_files(inp, seqs, d):
+    """FASTA always; the bigwig whenever the genome carries a signal description"""
     os.makedirs(d, exist_ok=True)
     fa = os.path.join(d, 'g.fa')
+    for f in (fa, fa + '.fai', os.path.join(d, 's.bw')):
+        if os.path.exists(f):
+            os.remove(f)
     with open(fa, 'w') as f:
         for name, s in zip(NAMES, seqs):
             f.write('>%s\n' % name)
             for i in range(0, len(s), 60):
                 f.write(s[i:i + 60] + '\n')
     bw = None
-    if sigs is not None:
+    if any(c['signal'] for c in inp['genome']):
         import pyBigWig
         bw = os.path.join(d, 's.bw')
         h = pyBigWig.open(bw, 'w')
-        h.addHeader([(name, len(s)) for name, s in zip(NAMES, seqs)])
-        for name, c in zip(NAMES, inp['genome']):
-            L = len(seqs[NAMES.index(name)])
+        h.addHeader([(name, len(s)) for name, s, c in zip(NAMES, seqs, inp['genome']) if in_bw(c)])
+        for name, c, sq in zip(NAMES, inp['genome'], seqs):
+            if not in_bw(c):
+                continue
+            L = len(sq)
             pos = 0
             st, en, va = [], [], []
             for ln, val in c['signal']:
@@ -126,50 +155,143 @@ def write_files(inp, seqs, sigs, d):
 _counter = [0]
 
 
-def call_impl(inp, fa, bw, n_jobs):
+def calls_of(inp):
+    return inp['seq'] if 'seq' in inp else [inp]
+
+
+def build_args(inp, fa, bw, d, n_jobs, verbose):
+    """the arguments in the forms the input asks for; returns (loci, kwargs, snapshot of caller data)"""
     import pandas
-    from tangermeme.match import extract_matching_loci
-    loci = pandas.DataFrame({'chrom': [NAMES[c] for c, _, _ in inp['loci']],
-                             'start': [s for _, s, _ in inp['loci']],
-                             'end': [e for _, _, e in inp['loci']]})
-    chroms = None if inp['chroms'] is None else [NAMES[c] for c in inp['chroms']]
-    kw = dict(in_window=inp['in_window'], out_window=inp['out_window'],
-              max_n_perc=inp['max_n'][0] / inp['max_n'][1],
-              gc_bin_width=inp['bw'][0] / inp['bw'][1],
-              chroms=chroms, random_state=inp['seed'], n_jobs=n_jobs, verbose=False)
-    if bw is not None:
+    form = inp.get('loci_form', 'df')
+    df = pandas.DataFrame({'chrom': [NAMES[c] for c, _, _ in inp['loci']],
+                           'start': [s for _, s, _ in inp['loci']],
+                           'end': [e for _, _, e in inp['loci']]})
+    if len(inp['loci']) == 0:
+        df = df.astype({'chrom': object, 'start': 'int64', 'end': 'int64'})
+    if form == 'bed':
+        path = os.path.join(d, 'loci.bed')
+        df2 = df.copy()
+        df2['name'] = ['p%d' % i for i in range(len(df2))]
+        df2.to_csv(path, sep='\t', header=False, index=False)
+        loci = path
+    elif form == 'df_extra':
+        loci = df.copy()
+        loci['score'] = [float(i % 7) for i in range(len(loci))]
+        loci['name'] = ['p%d' % i for i in range(len(loci))]
+        loci = loci[['name', 'end', 'chrom', 'score', 'start']]
+        loci.index = [3 * ((7 * i + 5) % max(1, len(loci))) + 2 for i in range(len(loci))]
+        loci = loci.astype({'start': 'int32', 'end': 'int32'})
+    else:
+        loci = df
+    chroms = None
+    if inp['chroms'] is not None:
+        chroms = [NAMES[c] for c in inp['chroms']]
+        cf = inp.get('chroms_form', 'list')
+        if cf == 'tuple':
+            chroms = tuple(chroms)
+        elif cf == 'ndarray':
+            chroms = numpy.array(chroms)
+    npt = inp.get('np_types', False)
+    fl = (lambda x: numpy.float64(x)) if npt else (lambda x: x)
+    it = (lambda x: numpy.int64(x)) if npt else (lambda x: x)
+    sf = inp.get('seed_form', 'int')
+    seed = inp['seed']
+    if sf == 'np_int64':
+        seed = numpy.int64(seed)
+    elif sf == 'RandomState':
+        seed = numpy.random.RandomState(seed)
+    if inp['max_n'][0] == 0 and inp.get('maxn_int'):
+        maxn = 0                                   # a Python int where a float is usual
+    else:
+        maxn = fl(inp['max_n'][0] / inp['max_n'][1])
+    kw = dict(in_window=it(inp['in_window']), out_window=it(inp['out_window']),
+              max_n_perc=maxn,
+              gc_bin_width=fl(inp['bw'][0] / inp['bw'][1]),
+              chroms=chroms, random_state=seed, n_jobs=n_jobs, verbose=verbose)
+    if inp['bigwig']:
         kw['bigwig'] = bw
-        kw['signal_beta'] = inp['beta'][0] / inp['beta'][1]
-    r = extract_matching_loci(loci, fa, **kw)
-    rows = [[NAMES.index(c), int(s), int(e)] for c, s, e in zip(r['chrom'], r['start'], r['end'])]
-    return rows
+        kw['signal_beta'] = fl(inp['beta'][0] / inp['beta'][1])
+    snap = (loci.copy(deep=True) if not isinstance(loci, str) else None,
+            None if chroms is None else (list(chroms), type(chroms)))
+    return loci, kw, snap
+
+
+def unchanged(loci, kw, snap):
+    l0, c0 = snap
+    ok = True
+    if l0 is not None:
+        ok = ok and list(loci.columns) == list(l0.columns) and list(loci.index) == list(l0.index) \
+            and list(loci.dtypes) == list(l0.dtypes) and loci.equals(l0)
+    if c0 is not None:
+        ok = ok and type(kw['chroms']) is c0[1] and list(kw['chroms']) == c0[0]
+    return bool(ok)
+
+
+def call_impl(inp, fa, bw, d, n_jobs, verbose=False):
+    import contextlib
+    import io
+    from tangermeme.match import extract_matching_loci
+    loci, kw, snap = build_args(inp, fa, bw, d, n_jobs, verbose)
+    if verbose:
+        with contextlib.redirect_stdout(io.StringIO()), contextlib.redirect_stderr(io.StringIO()):
+            r = extract_matching_loci(loci, fa, **kw)
+    else:
+        r = extract_matching_loci(loci, fa, **kw)
+    rows = [[NAMES.index(str(c)), int(s), int(e)] for c, s, e in zip(r['chrom'], r['start'], r['end'])]
+    return rows, unchanged(loci, kw, snap)
+
+
+def run_one(inp, fa, bw, d):
+    verbose = bool(inp.get('verbose'))
+    note = None
+    unch = True
+    try:
+        rows, unch = call_impl(inp, fa, bw, d, inp['n_jobs'], verbose)
+        ok = True
+    except Exception as e:
+        rows, ok = None, False
+        err = '%s: %s' % (type(e).__name__, e)
+        if verbose:
+            # the diagnostics (ks_2samp / max of the matched signal) fail on an empty result; verbose
+            # is outside the property's quantifier: fall back to the quiet call when that is the cause
+            try:
+                rows2, unch2 = call_impl(inp, fa, bw, d, inp['n_jobs'], False)
+                if rows2 == []:
+                    rows, ok, unch, note = rows2, True, unch2, 'verbose-diagnostics-raise-on-empty'
+            except Exception:
+                pass
+    same = True
+    if inp['n_jobs'] != 1:
+        try:
+            rows1, _ = call_impl(inp, fa, bw, d, 1, False)
+            same = ok and rows1 == rows
+        except Exception:
+            same = not ok
+    out = {'ok': ok, 'rows': rows, 'same': same, 'unchanged': unch}
+    if not ok:
+        out['error'] = err[:300]
+    if note:
+        out['note'] = note
+    return out
 
 
 def run_impl(inp):
     if inp.get('dummy'):
-        return {'ok': True, 'rows': [], 'same': True}
+        return {'outs': [{'ok': True, 'rows': [], 'same': True, 'unchanged': True}]}
     _counter[0] += 1
     d = os.path.join(TMP, 'case%d' % _counter[0])
+    outs = []
     try:
-        seqs, sigs = materialise(inp)
-        fa, bw = write_files(inp, seqs, sigs, d)
-        try:
-            rows = call_impl(inp, fa, bw, inp['n_jobs'])
-            ok = True
-        except Exception as e:
-            rows, ok = None, False
-            err = '%s: %s' % (type(e).__name__, e)
-        same = True
-        if inp['n_jobs'] != 1:
-            try:
-                rows1 = call_impl(inp, fa, bw, 1)
-                same = ok and rows1 == rows
-            except Exception:
-                same = not ok
-        out = {'ok': ok, 'rows': rows, 'same': same}
-        if not ok:
-            out['error'] = err[:300]
-        return out
+        on_disk = None
+        fa = bw = None
+        for call in calls_of(inp):        # consecutive calls of a sequence share the file paths
+            key = json.dumps(call['genome'], sort_keys=True)
+            if key != on_disk:
+                seqs, _ = materialise(call)
+                fa, bw = write_files(call, seqs, d)
+                on_disk = key
+            outs.append(run_one(call, fa, bw, d))
+        return {'outs': outs}
     finally:
         shutil.rmtree(d, ignore_errors=True)
         try:
@@ -204,6 +326,7 @@ def measure(inp):
 def _measure(inp):
     seqs, sigs = materialise(inp)
     seqs = [s.upper() for s in seqs]
+    has_sig = [in_bw(c) for c in inp['genome']]
     w, ow = inp['in_window'], inp['out_window']
     p, q = inp['max_n']
     bp, bq = inp['bw']
@@ -250,11 +373,11 @@ def _measure(inp):
         if (c / w <= maxnf) != (c * q <= p * w):
             amb.append('nfrac')
             break
-    # threshold (times 100), exact
+    # threshold (times 100), exact; loci on a chromosome without signal count as nan
     thr100 = None
     if inp['bigwig']:
         betp, betq = inp['beta']
-        vals = sorted(l['sig'] for l in loci if l['valid'])
+        vals = sorted(l['sig'] for l, (c, _, _) in zip(loci, inp['loci']) if l['valid'] and has_sig[c])
         if vals:
             mlen = len(vals) - 1
             lo, g = mlen // 100, mlen % 100
@@ -267,10 +390,10 @@ def _measure(inp):
                         amb.append('threshold')
                         break
 
-    def sig_ok(t):
+    def sig_ok(c, t):
         if not inp['bigwig']:
             return True
-        if thr100 is None:
+        if thr100 is None or not has_sig[c]:
             return False
         return t[2] * 100 * inp['beta'][1] <= thr100 * inp['beta'][0]
 
@@ -285,7 +408,7 @@ def _measure(inp):
     elig = [[] for _ in range(nb_exact + 2)]
     for c in chroms:
         for t, tl in enumerate(tiles[c]):
-            if tl[1] * q <= p * w and sig_ok(tl) and t not in masks[c]:
+            if tl[1] * q <= p * w and sig_ok(c, tl) and t not in masks[c]:
                 if tl[3] < len(elig):
                     elig[tl[3]].append((c, t))
     lh = [0] * (nb_exact + 2)
@@ -303,65 +426,77 @@ def _measure(inp):
         perms.append(lst)
     return {'tiles': tiles, 'loci': loci, 'perms': perms, 'amb': amb, 'nb': nb_exact,
             'elig': [len(x) for x in elig], 'lh': lh, 'usable': usable,
-            'lens': [len(s) for s in seqs]}
+            'lens': [len(s) for s in seqs], 'has_sig': has_sig}
 
 
 # ----------------------------------------------------------------------------------------
 # Coq literals
 
-DUMMY = '(Call [] [] 1 1 (0, 1) (1, 2) None None 1%nat [[]; []; []], Ok [], true)'
+DUMMY = '(Call [] [] 1 1 (0, 1) (1, 2) None None 1%nat [[]; []; []], Ok [], true, true)'
 
 
 def pair(a, b):
     return '(%s, %s)' % (C.z(a), C.z(b))
 
 
-def coq_case(inp, out):
-    if inp.get('dummy'):
-        return DUMMY
+def eff_jobs(n):
+    if n < 0:
+        return max(1, (os.cpu_count() or 1) + 1 + n)
+    return n
+
+
+def coq_one(inp, out):
     m = measure(inp)
     if m['amb']:
         return DUMMY
     chroms = []
-    for L, ts in zip(m['lens'], m['tiles']):
-        tl = C.lst(['Tile %d %d %d %d' % t for t in ts])
-        chroms.append('Chrom %d %s' % (L, tl))
+    for L, hs, ts in zip(m['lens'], m['has_sig'], m['tiles']):
+        tl = C.lst(['Tile %s %d %s %d' % (C.z(t[0]), t[1], C.z(t[2]), t[3]) for t in ts])
+        chroms.append('Chrom %d %s %s' % (L, C.boolean(hs), tl))
     loci = []
     for (c, s, e), l in zip(inp['loci'], m['loci']):
-        loci.append('Locus %d %s %s %s %s %d %d %d %s %s %d' % (
+        loci.append('Locus %d %s %s %s %s %d %d %d %s %s %s' % (
             c, C.z(s), C.z(e), C.z(l['rs']), C.z(l['re']), l['gc'], l['n'], l['bin'],
-            C.z(l['ss']), C.z(l['se']), l['sig']))
+            C.z(l['ss']), C.z(l['se']), C.z(l['sig'])))
     call = '(Call %s %s %d %d %s %s %s %s %d %s)' % (
         C.lst(chroms), C.lst(loci), inp['in_window'], inp['out_window'],
         pair(*inp['max_n']), pair(*inp['bw']),
         ('(Some %s)' % pair(*inp['beta'])) if inp['bigwig'] else 'None',
         'None' if inp['chroms'] is None else '(Some %s)' % C.lst(['%d%%nat' % c for c in inp['chroms']]),
-        inp['n_jobs'],
+        eff_jobs(inp['n_jobs']),
         C.lst([C.lst(['%d%%nat' % j for j in pm]) for pm in m['perms']]))
     if out['ok']:
         o = '(Ok %s)' % C.lst(['(%d%%nat, %s, %s)' % (c, C.z(s), C.z(e)) for c, s, e in out['rows']])
     else:
         o = 'Err'
-    return '(%s, %s, %s)' % (call, o, C.boolean(out['same']))
+    return '(%s, %s, %s, %s)' % (call, o, C.boolean(out['same']), C.boolean(out.get('unchanged', True)))
+
+
+def coq_case(inp, out):
+    if inp.get('dummy'):
+        return '[%s]' % DUMMY
+    return C.lst([coq_one(c, o) for c, o in zip(calls_of(inp), out['outs'])])
+
+
+def spills(inp):
+    m = measure(inp)
+    return (not m['amb']) and any(l > e for l, e in zip(m['lh'], m['elig']))
 
 
 def nontrivial(inp, out):
-    if inp.get('dummy') or not out['ok']:
-        return False
-    m = measure(inp)
-    if m['amb']:
-        return False
-    return any(l > e for l, e in zip(m['lh'], m['elig']))
-
-
-def hist_key(inp, out):
     if inp.get('dummy'):
-        return 'dummy'
+        return False
+    return any(o['ok'] and spills(c) for c, o in zip(calls_of(inp), out['outs']))
+
+
+def key_one(inp, out):
     m = measure(inp)
     if m['amb']:
         return 'excluded-float:' + ','.join(sorted(set(m['amb'])))
     if not out['ok']:
         return 'raise'
+    if out.get('note'):
+        return out['note']
     tot_e = sum(m['elig'])
     kind = 'bigwig' if inp['bigwig'] else 'plain'
     if any(l > e for l, e in zip(m['lh'], m['elig'])):
@@ -373,6 +508,16 @@ def hist_key(inp, out):
     return kind
 
 
+def hist_key(inp, out):
+    if inp.get('dummy'):
+        return 'dummy'
+    cs = calls_of(inp)
+    if 'seq' in inp:
+        return 'sequence of %d calls (%s)' % (len(cs), inp.get('what', '?'))
+    k = key_one(cs[0], out['outs'][0])
+    return (inp['stream'] + ': ' + k) if inp.get('stream') else k
+
+
 def tags(inp, out):
     return set()
 
@@ -382,10 +527,22 @@ def tags(inp, out):
 
 BWS = [(1, 100), (1, 50), (1, 40), (3, 100), (1, 25), (1, 20), (3, 50), (7, 100), (2, 25), (9, 100), (1, 10)]
 BETAS = [(1, 2), (1, 2), (1, 1), (1, 4), (2, 1), (3, 4)]
+GC_LEVELS = [0, 5, 20, 30, 35, 40, 42, 45, 50, 50, 55, 60, 65, 70, 80, 95, 100]
 
 
-def gen_case(rng, big):
-    w = rng.choice([50, 50, 60, 64, 75, 100, 100, 128, 150, 200] + ([250, 300, 400, 500] if big else [250, 500]))
+def gen_signal(rng, L, w):
+    signal = []
+    rem = L
+    while rem > 0:
+        ln = min(rem, rng.choice([w, 2 * w, w // 3 + 1, rng.randint(1, 3 * w)]))
+        signal.append([ln, rng.choice([None, 0, 0, 1, 1, 2, 3, 5, 8, 20])])
+        rem -= ln
+    return signal
+
+
+def gen_case(rng, big, force_signal=False, max_tiles=None, nloci=None, w=None, nchrom=None, ascending=False):
+    if w is None:
+        w = rng.choice([50, 50, 60, 64, 75, 100, 100, 128, 150, 200] + ([250, 300, 400, 500] if big else [250, 500]))
     bigwig = rng.random() < 0.4
     if bigwig:
         ow = rng.choice([w, w, w - 1, w - 2, max(1, w // 2), max(1, w // 3), rng.randint(1, w)])
@@ -393,12 +550,15 @@ def gen_case(rng, big):
             ow = w + rng.randint(1, 20)       # rejected by the assertion
     else:
         ow = rng.choice([w, max(1, w // 2), rng.randint(1, w), w + rng.randint(1, 40)])
-    nchrom = rng.choice([1, 1, 2, 2, 3, 4])
-    max_tiles = rng.choice([20, 40, 80, 150] if not big else [40, 100, 200, 400])
+    if nchrom is None:
+        nchrom = rng.choice([1, 1, 2, 2, 3, 4])
+    if max_tiles is None:
+        max_tiles = rng.choice([20, 40, 80, 150] if not big else [40, 100, 200, 400])
     genome = []
-    gc_levels = [0, 5, 20, 30, 35, 40, 42, 45, 50, 50, 55, 60, 65, 70, 80, 95, 100]
     for ci in range(nchrom):
         ntile = max(2, max_tiles // nchrom + rng.randint(-3, 3))
+        if ascending:                 # later (in name order) chromosomes are longer
+            ntile = max(2, max_tiles // (2 * nchrom)) + ci * rng.randint(2, 6)
         L = ntile * w + rng.choice([0, 0, 1, w // 2, w - 1])
         blocks = []
         rem = L
@@ -409,20 +569,14 @@ def gen_case(rng, big):
                 blocks.append([ln, 50, 100, False])            # N stretch
             else:
                 nperc = rng.choice([0, 0, 0, 0, 2, 5, 10, 20, 40])
-                blocks.append([ln, rng.choice(gc_levels), nperc, rng.random() < 0.1])
+                blocks.append([ln, rng.choice(GC_LEVELS), nperc, rng.random() < 0.1])
             rem -= ln
-        signal = []
-        if bigwig:
-            rem = L
-            while rem > 0:
-                ln = min(rem, rng.choice([w, 2 * w, w // 3 + 1, rng.randint(1, 3 * w)]))
-                val = rng.choice([None, 0, 0, 1, 1, 2, 3, 5, 8, 20])
-                signal.append([ln, val])
-                rem -= ln
+        signal = gen_signal(rng, L, w) if (bigwig or force_signal) else []
         genome.append({'blocks': blocks, 'seed': rng.randint(0, 10 ** 6), 'signal': signal, 'len': L})
-    nloci = rng.choice([5, 8, 12, 20, 30, 50, 80, 120, 200])
-    if not big:
-        nloci = min(nloci, rng.choice([30, 60, 120, 200]))
+    if nloci is None:
+        nloci = rng.choice([5, 8, 12, 20, 30, 50, 80, 120, 200])
+        if not big:
+            nloci = min(nloci, rng.choice([30, 60, 120, 200]))
     # loci concentrate on a few hot spots
     hot = []
     for _ in range(rng.randint(1, 4)):
@@ -444,39 +598,234 @@ def gen_case(rng, big):
         s = max(0, s)
         if rng.random() < 0.25:
             s = (s // w) * w
-        width = rng.choice([w, w, w - 1, w + 1, 1, 2, w // 2, 2 * w, 3 * w, rng.randint(1, 2 * w)])
+        width = rng.choice([w, w, w - 1, w + 1, 1, 2, 0, w // 2, 2 * w, 3 * w, rng.randint(1, 2 * w)])
         loci.append([c, s, s + width])
     p, q = rng.choice([(0, 1), (1, 100), (1, 20), (1, 10), (1, 10), (1, 5), (3, 10), (1, 2),
                        (rng.randint(0, w // 2), w)])
     chroms = None
-    r = rng.random()
-    if r < 0.12:
+    if rng.random() < 0.12:
         chroms = rng.sample(range(nchrom), rng.randint(1, nchrom))
-    inp = {'genome': genome, 'loci': loci, 'in_window': w, 'out_window': ow, 'max_n': [p, q],
-           'bw': list(rng.choice(BWS)), 'bigwig': bigwig, 'beta': list(rng.choice(BETAS)),
-           'chroms': chroms, 'n_jobs': rng.choice([1, 1, 1, 2, 3, 4]) if big else rng.choice([1, 1, 1, 1, 1, 1, 2, 3, 4]),
-           'seed': rng.randint(0, 2 ** 31 - 1)}
-    return inp
+    return {'genome': genome, 'loci': loci, 'in_window': w, 'out_window': ow, 'max_n': [p, q],
+            'bw': list(rng.choice(BWS)), 'bigwig': bigwig, 'beta': list(rng.choice(BETAS)),
+            'chroms': chroms, 'n_jobs': 1, 'seed': rng.randint(0, 2 ** 31 - 1)}
+
+
+def gen_order_case(rng):
+    """several chromosomes, longer ones later in name order, homogeneous G+C, few valid loci and a
+    large background: each GC bin holds candidates of several chromosomes and is only partly
+    taken, so the result depends on the order in which the chromosomes' candidates are merged"""
+    w = rng.choice([50, 60, 64, 100])
+    nchrom = rng.choice([2, 3, 3, 4])
+    genome = []
+    for ci in range(nchrom):
+        nt = rng.randint(12, 18) + ci * rng.randint(3, 8)
+        L = nt * w + rng.choice([0, 1, w // 2])
+        blocks = [[L, rng.choice([45, 50, 55]), 0, False]]
+        genome.append({'blocks': blocks, 'seed': rng.randint(0, 10 ** 6), 'signal': [[L, rng.choice([0, 1])]], 'len': L})
+    loci = []
+    for _ in range(rng.randint(8, 20)):
+        c = rng.randrange(nchrom)
+        s = rng.randint(w, genome[c]['len'] - 3 * w)
+        loci.append([c, s, s + rng.choice([w, w - 1, w // 2])])
+    bigwig = rng.random() < 0.3
+    return {'genome': genome, 'loci': loci, 'in_window': w, 'out_window': rng.choice([w, w // 2]), 'max_n': [1, 10],
+            'bw': list(rng.choice([(1, 20), (1, 10), (1, 25), (1, 50)])), 'bigwig': bigwig, 'beta': [2, 1],
+            'chroms': None if rng.random() < 0.7 else rng.sample(range(nchrom), nchrom), 'n_jobs': 1,
+            'seed': rng.randint(0, 2 ** 31 - 1)}
+
+
+def vary_forms(rng, c):
+    """the same call through other accepted argument forms / types"""
+    c['loci_form'] = rng.choice(['df', 'bed', 'df_extra', 'df_extra'])
+    if c['chroms'] is None and rng.random() < 0.6:
+        n = len(c['genome'])
+        c['chroms'] = rng.sample(range(n), rng.randint(1, n))
+    if c['chroms'] is not None:
+        c['chroms_form'] = rng.choice(['list', 'tuple', 'ndarray'])
+    c['seed_form'] = rng.choice(['int', 'np_int64', 'RandomState'])
+    c['np_types'] = rng.random() < 0.5
+    c['maxn_int'] = rng.random() < 0.5
+    c['verbose'] = rng.random() < 0.35
+    return c
+
+
+def gen_boundary(rng, i):
+    """boundary values of the integer parameters and the combinations the code special-cases"""
+    kind = i % 9
+    if kind == 0:
+        # exact G+C counts on half-bin boundaries (the two float roundings of a bin index differ there)
+        w, (bp, bq) = rng.choice([(100, (1, 50)), (200, (1, 100)), (500, (1, 10)), (100, (1, 50)), (50, (1, 25)), (200, (1, 40))])
+        half = []                      # counts g with g/w / width = m + 1/2
+        for g in range(w + 1):
+            if (2 * g * bq) % (w * bp) == 0 and ((2 * g * bq) // (w * bp)) % 2 == 1:
+                half.append(g)
+        nt = rng.randint(20, 50)
+        blocks = []
+        for _ in range(nt):
+            g = rng.choice(half) if half and rng.random() < 0.7 else rng.randint(0, w)
+            blocks.append([w, g, 0, False, w])
+        L = nt * w
+        tl = rng.sample(range(nt), min(nt, rng.randint(5, nt // 2 + 5)))
+        loci = [[0, t * w + 1, t * w + w - 1] for t in tl]
+        return {'genome': [{'blocks': blocks, 'seed': rng.randint(0, 10 ** 6), 'signal': [], 'len': L}],
+                'loci': loci, 'in_window': w, 'out_window': rng.choice([w, w // 2]), 'max_n': [1, 10],
+                'bw': [bp, bq], 'bigwig': False, 'beta': [1, 2], 'chroms': None, 'n_jobs': 1,
+                'seed': rng.randint(0, 2 ** 31 - 1)}
+    c = gen_case(rng, False, force_signal=True, max_tiles=rng.choice([20, 40, 60]))
+    w = c['in_window']
+    if kind == 1:
+        # signal exactly at the threshold: constant signal, beta = 1  (values <= threshold)
+        for g in c['genome']:
+            g['signal'] = [[g['len'], 3]]
+        c.update(bigwig=True, beta=[1, 1], out_window=rng.choice([w, w - 1, w // 2]))
+    elif kind == 2:
+        c['loci'] = c['loci'][:rng.choice([0, 1, 1, 2])]            # 0 / 1 / 2 input loci
+        c['bigwig'] = c['bigwig'] and c['out_window'] <= w
+    elif kind == 3:
+        # a chromosome shorter than the window (no tile), listed in chroms
+        c['genome'].append({'blocks': [[rng.randint(1, w - 1), 50, 0, False]], 'seed': 5, 'signal': [[w, 1]], 'len': w - 1})
+        c['chroms'] = list(range(len(c['genome'])))
+        c['bigwig'] = c['bigwig'] and c['out_window'] <= w
+    elif kind == 4:
+        # zero-width loci, loci ending exactly at the chromosome end / starting at 0, tile-aligned ends
+        loci = []
+        for ci, g in enumerate(c['genome']):
+            L = g['len']
+            loci += [[ci, 0, w], [ci, L - w, L], [ci, L - 1, L], [ci, 3 * w, 3 * w], [ci, 2 * w, 4 * w],
+                     [ci, w // 2, w // 2], [ci, L, L], [ci, max(0, L - w // 2), L + w]]
+        c['loci'] = loci + c['loci'][:10]
+    elif kind == 5:
+        c.update(bigwig=True, out_window=rng.choice([1, 2, w, w - 1]))      # extreme out_window
+    elif kind == 6:
+        # the bigwig lacks a chromosome (outside the property's scope: only the tie looks at it)
+        if len(c['genome']) < 2:
+            c['genome'].append({'blocks': [[10 * w, 40, 0, False]], 'seed': 9, 'signal': [[10 * w, 1]], 'len': 10 * w})
+            c['loci'].append([1, 2 * w, 3 * w])
+        c['genome'][rng.randrange(len(c['genome']))]['in_bw'] = False
+        c.update(bigwig=True, out_window=min(c['out_window'], w), chroms=list(range(len(c['genome']))))
+    elif kind == 7:
+        # 200 loci on a small genome: the background is exhausted; max_n_perc = 1/2 and many N
+        g = c['genome'][0]
+        L = g['len']
+        c['loci'] = [[0, rng.randrange(L), 0] for _ in range(200)]
+        c['loci'] = [[a, s, s + rng.choice([w, 1, w // 2])] for a, s, _ in c['loci']]
+        c['max_n'] = [1, 2]
+        c['bigwig'] = False
+    else:
+        # in_window at the ends of its range, max_n_perc hit exactly
+        w = rng.choice([50, 500])
+        c = gen_case(rng, False, max_tiles=20, w=w)
+        k = rng.randint(0, w // 2)
+        c.update(max_n=[k, w])
+    return c
+
+
+STEP_KINDS = ['in_window', 'out_window', 'max_n', 'bw', 'bigwig', 'beta', 'chroms', 'seed', 'seed_form',
+              'loci', 'loci_form', 'genome', 'np_types', 'n_jobs']
+
+
+def gen_sequence(rng):
+    """calls made one after the other in one process on the same file paths, one thing changed per
+    step (stale caches / module state keyed on an incomplete key would show)"""
+    base = gen_case(rng, False, force_signal=True, max_tiles=rng.choice([16, 24, 40]), nloci=rng.choice([5, 8, 12, 20, 30]))
+    if base['bigwig'] and base['out_window'] > base['in_window']:
+        base['out_window'] = base['in_window']
+    steps = [base]
+    what = []
+    for _ in range(rng.randint(2, 3)):
+        c = json.loads(json.dumps(steps[-1]))
+        w = c['in_window']
+        kind = rng.choice(STEP_KINDS)
+        if kind == 'in_window':
+            c['in_window'] = rng.choice([x for x in (50, 60, 64, 75, 100, 128) if x != w])
+            c['out_window'] = min(c['out_window'], c['in_window'])
+        elif kind == 'out_window':
+            c['out_window'] = rng.choice([x for x in (w, w - 1, w // 2, 1) if x != c['out_window']])
+        elif kind == 'max_n':
+            c['max_n'] = list(rng.choice([x for x in [(0, 1), (1, 20), (1, 10), (3, 10), (1, 2)] if list(x) != c['max_n']]))
+        elif kind == 'bw':
+            c['bw'] = list(rng.choice([x for x in BWS if list(x) != c['bw']]))
+        elif kind == 'bigwig':
+            c['bigwig'] = not c['bigwig']
+            c['out_window'] = min(c['out_window'], w)
+        elif kind == 'beta':
+            c['bigwig'] = True
+            c['out_window'] = min(c['out_window'], w)
+            c['beta'] = list(rng.choice([x for x in BETAS if list(x) != c['beta']]))
+        elif kind == 'chroms':
+            n = len(c['genome'])
+            c['chroms'] = None if c['chroms'] is not None else rng.sample(range(n), rng.randint(1, n))
+        elif kind == 'seed':
+            c['seed'] = rng.randint(0, 2 ** 31 - 1)
+        elif kind == 'seed_form':
+            c['seed_form'] = rng.choice([x for x in ('int', 'np_int64', 'RandomState') if x != c.get('seed_form', 'int')])
+        elif kind == 'loci':
+            c['loci'] = c['loci'][len(c['loci']) // 2:] + [[l[0], max(0, l[1] - w), l[2]] for l in c['loci'][:2]]
+        elif kind == 'loci_form':
+            c['loci_form'] = rng.choice([x for x in ('df', 'bed', 'df_extra') if x != c.get('loci_form', 'df')])
+        elif kind == 'genome':
+            gi = rng.randrange(len(c['genome']))
+            c['genome'][gi]['seed'] += 1          # other content, same path, same length
+        elif kind == 'np_types':
+            c['np_types'] = not c.get('np_types', False)
+        elif kind == 'n_jobs':
+            c['n_jobs'] = 2 if c['n_jobs'] == 1 else 1
+        what.append(kind)
+        steps.append(c)
+    return {'seq': steps, 'what': '+'.join(what)}
 
 
 def generate(tier, rng):
     big = tier == 'thorough'
-    n = 2400 if big else 320
+    n = 2000 if big else 260
     njobs = 40 if big else 12         # calls through joblib worker processes are slow to start:
-    cases = [gen_case(rng, big) for _ in range(n)]
-    for c in cases:                   # most cases run with n_jobs=1 ...
-        c['n_jobs'] = 1
-    for i, c in enumerate(cases[:njobs]):   # ... these with 2, 3, 4 (grouped: the pool is reused)
-        c['n_jobs'] = 2 + (3 * i) // njobs
+    nm1 = 4 if big else 2
+    cases = []
+    for i in range(njobs + nm1):
+        # the cases run through worker processes: half of them with several chromosomes whose
+        # length order differs from their name order, a large background and few loci, so that
+        # the selection depends on the order in which the chromosomes' candidates are merged
+        if i % 2 == 0:
+            c = gen_order_case(rng)
+        else:
+            c = gen_case(rng, big)
+        # 2, 3, 4 grouped (the pool is reused), then -1 = the default, all CPUs
+        c['n_jobs'] = 2 + (3 * i) // njobs if i < njobs else -1
+        cases.append(c)
+    cases += [gen_case(rng, big) for _ in range(n - len(cases))]
     for c in cases:
         yield c
+    for i in range(400 if big else 54):
+        c = gen_boundary(rng, i)
+        c['stream'] = 'boundary%d' % (i % 9)
+        yield c
+    for i in range(500 if big else 60):
+        c = vary_forms(rng, gen_case(rng, False, max_tiles=rng.choice([20, 40, 80]), nloci=rng.choice([5, 8, 12, 20, 30, 60])))
+        c['stream'] = 'forms'
+        yield c
+    seqs = [gen_sequence(rng) for _ in range(250 if big else 36)]
+    seqs.sort(key=lambda s: 0 if 'n_jobs' not in s['what'] else 1)     # worker-pool sequences last
+    for s in seqs:
+        yield s
 
 
 def shrink(inp):
     if inp.get('dummy'):
         return
+    if 'seq' in inp:
+        st = inp['seq']
+        if len(st) > 1:
+            yield st[-1]                       # the last call alone
+            for i in range(len(st)):
+                yield dict(inp, seq=st[:i] + st[i + 1:])
+        return
     if inp['n_jobs'] != 1:            # first: leave the (slow) worker processes out
         yield dict(inp, n_jobs=1)
+    for k in ('verbose', 'np_types', 'maxn_int', 'loci_form', 'chroms_form', 'seed_form'):
+        if inp.get(k) not in (None, False, 'df', 'list', 'int'):
+            c = dict(inp)
+            del c[k]
+            yield c
     # fewer loci
     L = inp['loci']
     if len(L) > 1:
